@@ -270,7 +270,7 @@ def expected_from_text(txt):
     return exp
 
 
-def mk_pipeline_sites(name, axis, expected_hetero=None, hetero_residues=()):
+def mk_pipeline_sites(name, axis, expected_hetero=None, hetero_residues=(), list_all=False):
     """whole pipeline under a symbolic grid translation: exactly the sites of the statement are reported, once, with
     the tabulated model pKa; a disulfide-bridged cysteine is reported as non-titrating (99.99), any other is titrated"""
     def body(ctx):
@@ -288,7 +288,13 @@ def mk_pipeline_sites(name, axis, expected_hetero=None, hetero_residues=()):
                 a.y = a.y + t
             else:
                 a.z = a.z + t
-        mol = M.run(txt, transform=tr)
+        args = []
+        if list_all:
+            # 'x all ... titrate-only settings': every residue of the structure listed -- the same sites must be reported,
+            # a listed bridged cysteine still as non-titrating 99.99
+            res = sorted({(l[21], int(l[22:26])) for l in txt.split('\n') if l.startswith('ATOM')})
+            args = ['-i', ','.join('%s:%d' % r for r in res)]
+        mol = M.run(txt, args=args, transform=tr)
         rep = M.reported(mol)
         groups = {}
         for g in mol.conformations['AVR'].groups:
@@ -360,7 +366,7 @@ def obligations(tier):
                    bounds='2 groups, each of 8 kinds (incl. two copies of a ligand carboxylate with identical labels), chain in {A,B}, titratable / exclude-cys flags chosen by fork', max_paths=100000, shards=4,
                    claim_doc='printed exactly once in both sections iff titratable or (CYS and not excluded); model pKa shown', wall_s=170),
     ]
-    fx = [('pair_CYS_CYS_bridge_along_x', 0), ('pair_CYS_CYS_bridge', 0), ('pair_GLU_ARG_TYR', 1), ('nterm_ASP_LYS', 2), ('cterm_PHE', 0)]
+    fx = [('pair_CYS_CYS_bridge_along_x', 0), ('pair_CYS_CYS_bridge', 0), ('pair_GLU_ARG_TYR', 1), ('nterm_ASP_LYS', 2), ('cterm_PHE', 0), ('tri_ASP$25', 1), ('tri_GLU$21', 2)]
     if tier == 'thorough':
         fx += [(n, ax) for n in ('pair_CYS_CYS_bridge_along_x', 'pair_CYS_CYS_bridge', 'pep8', 'pair_ASP_ARG', 'pair_LYS_ASP', 'pair_ASP_ASP', 'tri_CYS', 'tri_HIS', 'tri_TYR') for ax in (0, 1, 2)
                if (n, ax) not in fx]
@@ -371,6 +377,11 @@ def obligations(tier):
                           bounds='methotrexate + lining residues + chloride (cut from 4DFR) under a symbolic grid translation t in [0, 2.509] along x',
                           claim_doc='protein sites as O4; the ligand\'s ionizable groups and the ion are recognised, each with the model pKa / charge configured for its type',
                           max_paths=5000, wall_s=170, split_input=('shift_thousandths', 8)))
+    for name, ax in ([('pair_CYS_CYS_bridge', 1), ('pair_GLU_ARG_TYR', 2)] if tier == 'quick' else [('pair_CYS_CYS_bridge', 1), ('pair_GLU_ARG_TYR', 2), ('pep8', 0), ('cterm_PHE', 1), ('pair_CYS_CYS_bridge_along_x', 2)]):
+        obs.append(Obligation('O4-pipeline-sites[%s,%s,every residue listed with -i]' % (name, 'xyz'[ax]), mk_pipeline_sites(name, ax, list_all=True),
+                              code=['propka/run.py:single (whole pipeline)', 'propka/conformation_container.py:ConformationContainer.init_group', G + 'Group.use_in_calculations', 'propka/output.py:get_summary_section'],
+                              bounds='micro-structure %s with --titrate_only naming every residue, under a symbolic grid translation along %s' % (name, 'xyz'[ax]),
+                              claim_doc='as O4-pipeline-sites', max_paths=5000, wall_s=170))
     for name, ax in fx:
         obs.append(Obligation('O4-pipeline-sites[%s,%s]' % (name, 'xyz'[ax]), mk_pipeline_sites(name, ax),
                               code=['propka/run.py:single (whole pipeline)', 'propka/bonds.py:BondMaker.find_bonds_for_atoms_using_boxes', 'propka/bonds.py:BondMaker.check_distance',
